@@ -1019,6 +1019,19 @@ where
                             if let Some(mut payload) = this.payload.take() {
                                 payload.feed_eof();
                                 *this.payload_drainable = false;
+
+                                // The body that was just drained to its end belongs to a request
+                                // whose response has been sent already and announced the end of
+                                // the connection: whatever follows is not a request to be served.
+                                if this.state.is_none()
+                                    && this.flags.contains(Flags::FINISHED)
+                                    && !this.flags.intersects(Flags::LINGER | Flags::SHUTDOWN)
+                                    && !this.codec.keep_alive()
+                                {
+                                    this.read_buf.clear();
+                                    this.flags.insert(Flags::READ_DISCONNECT);
+                                    break;
+                                }
                             } else {
                                 error!("Internal server error: unexpected eof");
                                 this.flags.insert(Flags::READ_DISCONNECT);
